@@ -237,6 +237,72 @@ Proof.
 Qed.
 End C16_std.
 
+(* ---- presentations, constructor forms, other networks, histories -------------------------------------------------
+   Histories: pack_from_data / parse_from_data of the model are FUNCTIONS of (table, name, arguments) — there is no
+   state to carry from one call to the next, so every theorem above is history-independent by construction; that the
+   implementation has no such state either (scratch buffers, memoised objects) is tied by the correspondence run and
+   the `history` / `mutation` direct checks.  Networks: T, B, z are arbitrary codecs with the frame property — nothing
+   assumes an 80-byte header (C16_variable_length_codec_frames shows a variable-length instance); the harness runs
+   every pycoin.symbols network with its own Tx / Block classes.  bytes / bytearray / memoryview are one value
+   (VBytes) in the model; int subclasses are ints. *)
+Section C16_presentations.
+Variables TxV BlockV HdrV : Type.
+Variable parse_T : parser TxV.
+Variable stream_T : TxV -> bytes.
+Variable parse_B : parser BlockV.
+Variable stream_B : BlockV -> bytes.
+Variable parse_z : parser HdrV.
+Variable stream_z : HdrV -> bytes.
+Variable header_of : BlockV -> HdrV.
+Hypothesis frame_T : forall v rest, parse_T (stream_T v ++ rest) = Ret (v, rest).
+Hypothesis frame_B : forall v rest, parse_B (stream_B v ++ rest) = Ret (v, rest).
+Hypothesis frame_z : forall v rest, parse_z (stream_z v ++ rest) = Ret (v, rest).
+Notation pyv := (pyval TxV BlockV HdrV).
+Notation sc := (stream_codec stream_T stream_B stream_z header_of).
+Notation pc := (parse_codec parse_T parse_B parse_z ip4_header inv_checked_types).
+
+(* presentation independence of pack: bool for int, int for bool, bytes for an integer array, 1-tuples for elements *)
+Theorem C16_presentation_bool_as_int : forall k (b : bool), int_codec k ->
+  sc k (VBool b) = sc k (VInt (if b then 1 else 0)%Z).
+Proof. exact (bool_as_int TxV BlockV HdrV stream_T stream_B stream_z header_of). Qed.
+Theorem C16_presentation_int_as_bool : forall b : bool,
+  sc Cb (VInt (if b then 1 else 0)%Z) = sc Cb (VBool b) /\ sc CO (VInt (if b then 1 else 0)%Z) = sc CO (VBool b).
+Proof. exact (int_as_bool TxV BlockV HdrV stream_T stream_B stream_z header_of). Qed.
+Theorem C16_presentation_bytes_as_array : forall rest (b : bytes),
+  pack_field stream_T stream_B stream_z header_of (lbracket :: rest) (VBytes b) =
+  pack_field stream_T stream_B stream_z header_of (lbracket :: rest) (VTuple (map (fun x => VInt (b2z x)) b)).
+Proof. exact (bytes_as_array TxV BlockV HdrV stream_T stream_B stream_z header_of). Qed.
+Theorem C16_presentation_one_tuple_as_bare : forall sub (e : pyv) r, match e with VTuple _ => False | _ => True end ->
+  pack_elems stream_T stream_B stream_z header_of sub (VTuple [e] :: r) =
+  pack_elems stream_T stream_B stream_z header_of sub (e :: r).
+Proof. exact (one_tuple_as_bare TxV BlockV HdrV stream_T stream_B stream_z header_of). Qed.
+
+(* every accepted constructor form packs and parses back to an EQUAL object (same constructor result) *)
+Theorem C16_peer_address_constructed_roundtrip : forall (s : Z) (ip : bytes) (p : Z) rest,
+  (0 <= s < 2 ^ 64)%Z -> (0 <= p < 2 ^ 16)%Z -> length ip = 4%nat \/ length ip = 16%nat ->
+  exists a bs, mk_addr ip4_header s ip p = Ret a /\ sc CA a = Ret bs /\ pc CA (bs ++ rest) = Ret (a, rest).
+Proof.
+  exact (peer_address_constructed_roundtrip TxV BlockV HdrV parse_T stream_T parse_B stream_B parse_z stream_z header_of
+           frame_T frame_B frame_z).
+Qed.
+Theorem C16_inv_item_constructed_roundtrip : forall (t : Z) (d : bytes) (dc : bool) (a : pyv) rest,
+  (0 <= t < 2 ^ 32)%Z -> mk_inv inv_checked_types t d dc = Ret a ->
+  exists bs, sc Cv a = Ret bs /\ pc Cv (bs ++ rest) = Ret (a, rest).
+Proof.
+  exact (inv_item_constructed_roundtrip TxV BlockV HdrV parse_T stream_T parse_B stream_B parse_z stream_z header_of
+           frame_T frame_B frame_z).
+Qed.
+End C16_presentations.
+
+(* PeerAddress(s, a.b.c.d as 4 bytes, p) IS PeerAddress(s, ::ffff:a.b.c.d, p) *)
+Theorem C16_peer_address_ipv4_twin : forall (TxV BlockV HdrV : Type) (s : Z) (ip : bytes) (p : Z), length ip = 4%nat ->
+  @mk_addr TxV BlockV HdrV ip4_header s ip p = @mk_addr TxV BlockV HdrV ip4_header s (ip4_header ++ ip) p.
+Proof. exact (@peer_address_ipv4_twin). Qed.
+
+(* a variable-length codec meets the frame hypothesis used for T / B / z *)
+Theorem C16_variable_length_codec_frames : forall n rest, unary_parse (unary_stream n ++ rest) = Ret (n, rest).
+Proof. exact unary_frame. Qed.
+
 Print Assumptions C16_table_well_formed.
 Print Assumptions C16_layouts_are_the_protocol_layouts.
 Print Assumptions C16_registered_characters.
@@ -269,6 +335,14 @@ Print Assumptions C16_parse_fuel_sufficient.
 Print Assumptions C16_all_messages_generic.
 Print Assumptions C16_all_messages.
 Print Assumptions C16_parse_with_post_processing.
+Print Assumptions C16_presentation_bool_as_int.
+Print Assumptions C16_presentation_int_as_bool.
+Print Assumptions C16_presentation_bytes_as_array.
+Print Assumptions C16_presentation_one_tuple_as_bare.
+Print Assumptions C16_peer_address_constructed_roundtrip.
+Print Assumptions C16_inv_item_constructed_roundtrip.
+Print Assumptions C16_peer_address_ipv4_twin.
+Print Assumptions C16_variable_length_codec_frames.
 
 (* ---- non-vacuity ------------------------------------------------------------------------------------------------ *)
 (* the frame hypotheses are satisfiable (a one-byte codec) ... *)
